@@ -79,8 +79,13 @@ func NewBlockReader(r io.Reader, opts ...Option) (*BlockReader, error) {
 		// fast forward to the beginning of data payload by subtracting pragma and header size from
 		// dataOffset.
 		rs := internalio.ToByteReadSeeker(r)
-		if _, err := rs.Seek(int64(v2h.DataOffset)-PragmaSize-HeaderSize, io.SeekCurrent); err != nil {
-			return nil, err
+		skip := int64(v2h.DataOffset) - PragmaSize - HeaderSize
+		if _, err := rs.Seek(skip, io.SeekCurrent); err != nil {
+			// r may implement io.Seeker without being seekable, e.g. os.Stdin attached to a pipe:
+			// a failed seek consumed nothing, so read past the padding instead.
+			if _, derr := io.CopyN(io.Discard, r, skip); derr != nil {
+				return nil, err
+			}
 		}
 		br.v1offset = uint64(v2h.DataOffset)
 		br.offset = br.v1offset
